@@ -96,6 +96,32 @@ def search(lim):
             if type(nb) is not want or nb.nesting_level != level + 1:
                 return dict(violation=True, cases=cases, what="nested backend at level %d is %s(level=%r)" % (level, type(nb).__name__, nb.nesting_level),
                             witness=dict(cls=cls.__name__, level=level))
+    # the REAL platform: the affinity mask (and LOKY_MAX_CPU_COUNT) may change between two calls in one process; each call honours the
+    # value of that moment (child process, so the harness keeps its own mask)
+    import subprocess
+    child = ("import os, sys, json\n"
+             "import joblib\n"
+             "from joblib.externals.loky.backend.context import cpu_count\n"
+             "out = {}\n"
+             "if hasattr(os, 'sched_getaffinity') and len(os.sched_getaffinity(0)) >= 2:\n"
+             "    orig = os.sched_getaffinity(0)\n"
+             "    out['before'] = [cpu_count(), joblib.effective_n_jobs(-1)]\n"
+             "    os.sched_setaffinity(0, {min(orig)})\n"
+             "    out['one_cpu_allowed'] = [cpu_count(), joblib.effective_n_jobs(-1), joblib.Parallel(n_jobs=-1, backend='threading')._effective_n_jobs()]\n"
+             "    os.sched_setaffinity(0, orig)\n"
+             "    out['restored'] = [cpu_count()]\n"
+             "    os.environ['LOKY_MAX_CPU_COUNT'] = '1'\n"
+             "    out['loky_max_1'] = [cpu_count(), joblib.effective_n_jobs(-1)]\n"
+             "print(json.dumps(out))\n")
+    pr = subprocess.run([sys.executable, "-c", child], capture_output=True, text=True, timeout=120, env={k: v for k, v in os.environ.items() if k != "LOKY_MAX_CPU_COUNT"})
+    cases += 1
+    if pr.returncode != 0:
+        return dict(violation=True, cases=cases, what="harness: affinity child failed: %s" % pr.stderr.strip().splitlines()[-1:], witness=None)
+    got = json.loads(pr.stdout.strip().splitlines()[-1])
+    if got:
+        if any(v != 1 for v in got["one_cpu_allowed"]) or any(v != 1 for v in got["loky_max_1"]) or got["restored"][0] != got["before"][0]:
+            return dict(violation=True, cases=cases, what="cpu_count / effective_n_jobs(-1) do not follow the CPU affinity mask or LOKY_MAX_CPU_COUNT of the moment: %r" % (got,),
+                        witness="cpu_count(); os.sched_setaffinity(0, {one cpu}); cpu_count(); restore; LOKY_MAX_CPU_COUNT=1; cpu_count()")
     # loky cpu_count
     import joblib.externals.loky.backend.context as ctx
     for os_cpus in (None, 1, 4, 16):
@@ -111,7 +137,47 @@ def search(lim):
                     if r < 1 or r != max(bound, 1):
                         return dict(violation=True, cases=cases, what="cpu_count()=%r expected %r" % (r, max(bound, 1)),
                                     witness=dict(os=os_cpus, affinity=aff, cgroup=cg, LOKY_MAX_CPU_COUNT=lokymax))
-    return dict(violation=False, cases=cases)
+    # probes of recorded findings, in a fresh interpreter (this harness has monkey-patched joblib above)
+    probe = r"""
+import json, threading, time, warnings
+warnings.simplefilter("ignore")
+from joblib import Parallel, delayed, parallel_config
+known = {}
+# K11: the Parallel objects created inside one parallel_config(backend='threading') block share one backend instance and its pool;
+# a call with n_jobs=2 made while a 6-thread run is unfinished runs pre_dispatch (4) tasks at once
+lock = threading.Lock()
+cur, peak = [0], [0]
+def probe_task(d):
+    with lock:
+        cur[0] += 1
+        peak[0] = max(peak[0], cur[0])
+    time.sleep(d)
+    with lock:
+        cur[0] -= 1
+with parallel_config(backend="threading"):
+    g = Parallel(n_jobs=6, return_as="generator")(delayed(time.sleep)(0.2) for _ in range(30))
+    next(g)
+    peak[0] = 0
+    Parallel(n_jobs=2)(delayed(probe_task)(0.15) for _ in range(12))
+    known["K11"] = ("%d tasks of a Parallel(n_jobs=2) call ran simultaneously" % peak[0]) if peak[0] > 2 else False
+    g.close()
+# K12: the nesting level lives in a thread-local; a thread started by a task does not see it
+res = {}
+def nested_probe():
+    def inner():
+        b = Parallel(n_jobs=2)._backend
+        res["thread"] = (type(b).__name__, b.nesting_level)
+    th = threading.Thread(target=inner)
+    th.start()
+    th.join()
+Parallel(n_jobs=2, backend="threading")(delayed(nested_probe)() for _ in range(1))
+t = res.get("thread", ("", 1))
+known["K12"] = ("Parallel(n_jobs=2) in a thread started by a task resolves to %s at nesting level %r" % t) if t[0] in ("LokyBackend", "MultiprocessingBackend") else False
+print(json.dumps(known))
+"""
+    pr = subprocess.run([sys.executable, "-c", probe], capture_output=True, text=True, timeout=300)
+    known = json.loads(pr.stdout.strip().splitlines()[-1]) if pr.returncode == 0 and pr.stdout.strip() else {}
+    return dict(violation=False, cases=cases, known=known)
 
 
 if __name__ == "__main__":
